@@ -4,6 +4,7 @@ import subprocess, time, os, select
 
 class Session:
     retry_budget = 8
+    total_unknowns = 0       # per process: see check()
 
     def __init__(self, kind='z3', timeout_s=60, logic=None, log=None, tactic='qfnra'):
         self.tactic = tactic
@@ -88,8 +89,11 @@ class Session:
     def check(self, assertions, want_model=False, model_vars=()):
         """one query; an `unknown` / time-out (never an error) is retried ONCE in a fresh solver process with five times the time limit:
         the limits are wall-clock, and a loaded machine can push a sub-second query over a one-minute limit"""
+        if Session.total_unknowns >= 6 and not getattr(self, '_retrying', False):
+            self.timeout_s = min(self.timeout_s, 5)
         ans, dt, model = self._check_once(assertions, want_model, model_vars)
         if ans == 'unknown':
+            Session.total_unknowns += 1
             # a session that keeps timing out (a tree on which the obligations no longer hold tends to produce many hard non-identities) is not
             # allowed to spend a minute on each: after three, its limit drops to five seconds (the answers stay `unknown` = inconclusive)
             self.unknowns = getattr(self, 'unknowns', 0) + 1
